@@ -19,6 +19,10 @@ rule("C09.e", "an output label built from two names is injective (otherwise one 
 rule("C09.b", "internal variable names never contain the separator used to qualify them with the asset name", floor=5)
 rule("C09.d", "the uniqueness assertion on asset names executes on every path of Portfolio.__init__, on the coerced names", floor=1)
 
+rule("C09.i", "a name is stored as it was given: the constructors of nodes, assets and portfolios keep `name` (or str(name)) - no "
+              "normalisation on the way (numeric parsing, rounding, case folding, stripping): a normalisation is not injective, two distinct "
+              "names ('1' and '01', 'a' and 'A ') would become one node / asset", floor=2)
+
 NAME_COLUMNS = ("asset", "node", "var_name", "internal_asset")
 DIGIT_COLUMNS = ("index_assets", "time_step", "index")
 SUBSTRING_METHODS = {"contains", "startswith", "endswith", "find", "rfind", "split", "rsplit", "partition",
@@ -209,9 +213,38 @@ def _sink(p, fn, node):
     return "other", None
 
 
-@analysis("keys", ["C07.a", "C07.b", "C09.a", "C09.b", "C09.d", "C09.e"])
+@analysis("keys", ["C07.a", "C07.b", "C09.a", "C09.b", "C09.d", "C09.e", "C09.i"])
 def run(ctx):
     p = ctx.p
+    # ------------------------------------------------------------------ C09.i names are stored as given
+    n_i = 0
+    for ci in sorted(p.classes.values(), key=lambda c: c.name):
+        init = ci.methods.get("__init__")
+        if init is None or init.param("name") is None:
+            continue
+        ffi = ctx.flow(init)
+        for st in au.walk_stmts(init.body):
+            if not (isinstance(st, ast.Assign) and any(au.path(t) == "self.name" for t in st.targets)):
+                continue
+            n_i += 1
+            v = st.value
+            while isinstance(v, ast.Call) and isinstance(v.func, ast.Name) and v.func.id == "str" and len(v.args) == 1:
+                v = v.args[0]
+            why = ""
+            if not (isinstance(v, ast.Name) and v.id == "name"):
+                why = "self.name is set to %s" % au.short(st.value, 50)
+            else:
+                redef = [d for d in ffi.defs("name", st) if d.kind != "param"]
+                bad = [d for d in redef if not (d.kind == "assign" and isinstance(d.value, ast.Call) and isinstance(d.value.func, ast.Name) and d.value.func.id == "str"
+                                              and len(d.value.args) == 1 and isinstance(d.value.args[0], ast.Name) and d.value.args[0].id == "name")]
+                if bad:
+                    why = "the parameter is re-assigned before it is stored (%s: %s)" % (p.where(bad[0].node), au.short(bad[0].node, 60))
+            ctx.ob("C09.i", init, "self.name of %s" % ci.name, not why,
+                   "%s: the stored name is a function of the given one that is not injective - two objects with distinct names can end up with the "
+                   "same name. Names are keys (nodes are collected by name, rows are selected by name): nodes '1' and '01' become one node, two "
+                   "separate markets are merged silently (optimum -783 instead of -1309 after renaming the nodes)" % why, node=st,
+                   ok_detail="name or str(name)")
+    ctx.require(n_i >= 2, "fewer than 2 constructors that store a name found", rules=["C09.i"])
     _CTX["ctx"] = ctx
     # ------------------------------------------------------------------ C09.b alphabet of internal variable names
     var_names = {}
